@@ -435,6 +435,11 @@ func (x *CommonLex) LexName(c rune) (int, TokVal) {
 				x.err = fmt.Errorf("Name requires local part.")
 				return xutils.ERR, nil
 			}
+			if !x.IsNameStartChar(c) {
+				x.SetError(fmt.Errorf(
+					"Illegal local part start character: '%c'", c))
+				return xutils.ERR, nil
+			}
 			localPartBuf := x.ConstructToken(c, nameMatcher, "NAME")
 			localPart = localPartBuf.String()
 			prefix = name.String()
